@@ -1,5 +1,5 @@
 From Coq Require Import List NArith Arith.
-From SK Require Import lib.LGraph lib.Mono model.C11_Model proof.C11_Aut proof.C11_WL proof.C11_Dedup proof.C11_Main proof.C11_Comp proof.C11_VF2.
+From SK Require Import lib.LGraph lib.Mono model.C11_Model proof.C11_Aut proof.C11_WL proof.C11_Dedup proof.C11_Main proof.C11_Comp proof.C11_VF2 proof.C11_Vocab.
 Import ListNotations.
 
 (** Vocabulary (definitions in proof/C11_Aut.v, written out here for the reader):
@@ -12,6 +12,33 @@ Import ListNotations.
     lib/Mono.v [monos] (induced, g into g).  The code uses only the number of enumerated maps and the set of
     their (node, image) pairs; the correspondence compares both on every case, which monitors the premise
     "VF2 lists every label-preserving self-isomorphism exactly once". *)
+
+(** The specification vocabulary of this file, unfolded: every equivalence below holds by definition (conversion). *)
+Theorem C11_vocabulary :
+  forall (fn : nlab -> N) (fe : elab -> N) (g : graph) (s : N -> N) (u v : N) (m m' : mapping)
+         (O : list (list N)) (c : list N) (cs : list (list N)) (E : list mapping),
+  (simple_graph g <-> NoDup (node_ids g) /\ forall a b x, In (a, b, x) (gedges g) -> a <> b) /\
+  (is_automorphism fn fe g s <->
+     (forall u, In u (node_ids g) -> In (s u) (node_ids g)) /\
+     (forall u v, In u (node_ids g) -> In v (node_ids g) -> s u = s v -> u = v) /\
+     (forall u, In u (node_ids g) -> option_map fn (label g (s u)) = option_map fn (label g u)) /\
+     (forall u v, In u (node_ids g) -> In v (node_ids g) ->
+        option_map fe (LGraph.adj g (s u) (s v)) = option_map fe (LGraph.adj g u v))) /\
+  aut_pairs g s = rev (map (fun u => (u, s u)) (node_ids g)) /\
+  (same_orbit fn fe g u v <-> exists m, In m (auts fn fe g) /\ In (u, v) m) /\
+  (same_items m m' <-> forall ph, In ph m <-> In ph m') /\
+  (exact_orbits fn fe g O <->
+     (forall u, In u (node_ids g) -> exists o, In o O /\ In u o) /\
+     (forall o u, In o O -> In u o -> In u (node_ids g)) /\
+     (forall o1 o2 u, In o1 O -> In o2 O -> In u o1 -> In u o2 -> o1 = o2) /\
+     NoDup O /\
+     (forall o u v, In o O -> In u o -> (In v o <-> same_orbit fn fe g u v))) /\
+  (pairwise_disjoint (c :: cs) <-> (forall d, In d cs -> forall x, In x c -> ~ In x d) /\ pairwise_disjoint cs) /\
+  (nodupR same_items (m :: E) <-> (forall y, In y E -> ~ same_items m y) /\ nodupR same_items E) /\
+  app_map m u = match assoc u m with Some q => q | None => u end /\
+  act m m' = map (fun ph => (app_map m (fst ph), snd ph)) m'.
+Proof. exact vocabulary. Qed.
+Print Assumptions C11_vocabulary.
 
 (** Clause 1 (count).  The enumeration is a duplicate-free list of exactly the label-preserving automorphisms, and
     the reported number is its length — for a graph with at most one component; otherwise the product of the
